@@ -12,7 +12,7 @@ model — are evaluated on the IMPLEMENTATION's observables:
   c20-content                           a subscriber did not get exactly the accepted matching publishes (topic, payload)
   c20-props-not-dropped / c20-props-not-preserved
   c16-will-missing / c16-will-twice / c16-will-after-disconnect
-  c19-over-limit / c19-two-sessions / c19-admitted-invalid / c19-rejected-effect / c19-admission-panic
+  c19-over-limit / c19-two-sessions / c19-admitted-invalid / c19-rejected-effect / c19-admission-panic / c19-slot-lost
 -/
 namespace Driver.StackD
 open Driver Codec Admission
@@ -202,6 +202,16 @@ def Mon.connected (m : Mon) (c : Nat) (ver : Version) (p : Packet) (res : Option
       if success && !(AdmissionSpec.mayProceed cfg bytes co && idOk) then
         some ("c19-admitted-invalid", s!"stream {c}: CONNACK Success for level={co.level} keepalive={co.keepAlive} id={hex co.clientId} clean={co.clean} credentials={AdmissionSpec.credentialsAccepted m.auth co.login co.clientId}")
       else none
+    -- a connection slot must not be lost: a CONNECT that satisfies every condition is refused
+    -- although fewer than max_connections clients are really connected (other client ids)
+    let others := (m.conns.filter (fun d => match d with
+      | some y => y.admitted && y.alive && (y.cid != co.clientId || co.clientId.isEmpty)
+      | none => false)).length
+    let f2 : Fail :=
+      if !success && AdmissionSpec.mayProceed cfg bytes co && idOk && others < m.maxConn then
+        some ("c19-slot-lost", s!"stream {c}: admissible CONNECT id={hex co.clientId} refused with {others} of {m.maxConn} clients connected")
+      else none
+    let f1 := first f1 f2
     -- reconnects and takeovers of the same client id
     let m := if !success || co.clientId.isEmpty then m else
       (List.range m.conns.length).foldl (fun m d =>
@@ -219,6 +229,28 @@ def Mon.connected (m : Mon) (c : Nat) (ver : Version) (p : Packet) (res : Option
           else m
         | none => m) m
     (m.setConn c x, f1)
+
+/-- CONNECT written, then the peer is gone before the broker can answer (`connclose`): nothing is
+    observed on that stream. For the will bookkeeping the connection counts as one that registered
+    its will and ended without DISCONNECT iff the CONNECT had to be accepted (every condition met,
+    room below `max_connections`). -/
+def Mon.connectedGone (m : Mon) (c : Nat) (ver : Version) (p : Packet) : Mon × Fail :=
+  match connectFields p with
+  | none => (m, none)
+  | some co =>
+    let cfg : Config := { version := ver, auth := m.auth, maxPayload := Stack.maxPayload }
+    let bytes := (Stack.clientEncode ver p).getD []
+    let idOk := match Stack.str? co.clientId with | some s => Router.validClientId s | none => false
+    let others := (m.conns.filter (fun d => match d with
+      | some y => y.admitted && y.alive
+      | none => false)).length
+    let due := AdmissionSpec.mayProceed cfg bytes co && idOk && others < m.maxConn
+    let delay := min (Stack.propU32 co.props 17) (Stack.propU32 (co.will.bind (·.props)) 24)
+    let x : MConn := { ver := ver, cid := co.clientId, clean := co.clean,
+                       will := co.will.map (fun w => ⟨w.topic, w.message⟩), delay := delay,
+                       admitted := due, alive := false, endedAt := some m.now, order := m.admissions,
+                       taskFate := "peer-gone-before-connack" }
+    ({ (m.setConn c x) with admissions := m.admissions + 1 }, none)
 
 /-- a client packet was written successfully on stream `c` -/
 def Mon.sent (m : Mon) (c : Nat) (p : Packet) : Mon :=
@@ -459,14 +491,28 @@ def step (st : DState) (op : List String) (out : String) : DState × Verdict :=
       let s := if isOpen then (st.s.clientPacket c p).settle else st.s
       verdict { st with s := s, m := m } mo out (mo == out) none
     | _, _ => (st, .bad "send")
-  | ["raw", c, _h] =>
-    match nat? c with
-    | some c =>
+  | ["raw", c, h] =>
+    match nat? c, CodecD.unhex h with
+    | some c, some bytes =>
       let isOpen := match st.s.conn? c with | some x => x.isOpen | none => false
       let mo := if isOpen then "ok" else "closed"
-      let s := if isOpen then st.s.malformed c else st.s
-      verdict { st with s := s, m := { st.m with round := [] } } mo out (mo == out) none
-    | none => (st, .bad "raw")
+      let s := if isOpen then st.s.rawBytes c bytes else st.s
+      -- what the client really sent, packet by packet (spec-level bookkeeping: a DISCONNECT in
+      -- front of undecodable bytes was sent first)
+      let m := { st.m with round := [] }
+      let m := if out ≠ "ok" then m else
+        match m.conn? c with
+        | some x => (Stack.decodeStream x.ver (bytes.length + 1) bytes []).1.foldl (fun m p => m.sent c p) m
+        | none => m
+      verdict { st with s := s, m := m } mo out (mo == out) none
+    | _, _ => (st, .bad "raw")
+  | "connclose" :: c :: v :: rest =>
+    match nat? c, parseVer v, pkt? rest with
+    | some c, some ver, some p =>
+      let (m, f) := st.m.connectedGone c ver p
+      let s := st.s.connectGone c ver p
+      verdict { st with s := s, m := { m with round := [] } } "ok" out (out == "ok") f
+    | _, _, _ => (st, .bad "connclose")
   | ["recv", c] =>
     match nat? c with
     | some c =>
